@@ -166,6 +166,45 @@ theorem floatToInt_int (n : Int) (h1 : minInt < n) (h2 : n < maxInt) : floatToIn
   have b : ¬ n ≤ minInt := by omega
   simp [a, b]
 
+/-- A rejected assignment (`$i =` with an index above the limit, `NF =` negative or too large, `FS =` a text that is not a
+regular expression) returns the SAME state: `$0`, the fields, the stored NF, the laziness flag, the saved separator and
+every variable are exactly as before. (Only a rejected OUTPUTMODE text is different: the code has by then reset the output
+mode to the default; the record itself is untouched there too.) -/
+theorem rejected_same_state (r : Rec ρ) (op : Op ρ) (e : Err) (h : (step M r op).2 = .err e)
+    (hm : ∀ m, op ≠ .setOutMode m) : (step M r op).1 = r := by
+  cases op with
+  | setLine s t => simp [step] at h
+  | getField i =>
+    simp only [step, getField] at h
+    repeat' split at h
+    all_goals simp at h
+  | setField i v =>
+    simp only [step, setField] at h ⊢
+    repeat' split at h
+    all_goals first | rfl | simp at h
+    all_goals simp_all
+  | getNF => simp [step] at h
+  | setNF a =>
+    simp only [step, setNF] at h ⊢
+    by_cases h1 : goInt a.val < 0
+    · simp [h1]
+    · by_cases h2 : goInt a.val > maxFieldIndex
+      · simp [h1, h2]
+      · simp [h1, h2] at h
+  | setFS fs re =>
+    simp only [step] at h ⊢
+    split
+    · rfl
+    · rename_i hh; simp [hh] at h
+  | setOFS s => simp [step] at h
+  | setOutMode m => exact absurd rfl (hm m)
+
+theorem rejected_outmode_record (r : Rec ρ) (m : OutMode) (e : Err) (h : (step M r (.setOutMode m)).2 = .err e) :
+    let r' := (step M r (.setOutMode m)).1
+    r'.line = r.line ∧ r'.fields = r.fields ∧ r'.numFields = r.numFields ∧ r'.haveFields = r.haveFields ∧
+      r'.env.csv = none := by
+  cases m <;> simp [step, setModeEnv] at h ⊢
+
 /-! ### `$0 = v` re-splits with the FS in force; a later FS change is inert -/
 theorem setLine_resplits (r : Rec ρ) (v : Bytes) (t : Bool) :
     (abs M (step M r (.setLine v t)).1).fields = splitFlds M r.env r.env.fs r.env.fsRe v ∧
